@@ -10,6 +10,8 @@
 (* the horizon = 0; and the closed form of the documentation               *)
 (* R_t = sum_{t' >= t} gamma^(t' - t) r_t'.                                *)
 (* gamma = <<p, q>> is an exact rational.                                  *)
+(* Long sequences (1000..2500 steps) are reached through the lemmas at the *)
+(* end of the module: ConcatLemma, EmbedLemma, SuperposeLemma.             *)
 (***************************************************************************)
 EXTENDS FeatStats
 
@@ -52,6 +54,61 @@ Closed(t, t2) == IF t2 >= NT THEN RatInt(0)
 
 ReturnIsRecurrence == \A t \in 0..(k - 1) : RatEq(R[t + 1], Ret(t)) /\ RatOK(R[t + 1]) /\ RatOK(Ret(t))
 ClosedFormIsRecurrence == \A t \in 0..(NT - 1) : RatEq(Closed(t, t), Ret(t))
+
+(***************************************************************************)
+(* Lemmas that carry the small universe to LONG reward sequences (the      *)
+(* harness embeds every exported case into sequences of 1000..2500 steps,  *)
+(* far beyond what exact rationals in 32-bit integers can enumerate).      *)
+(* RetS is the recurrence of the property on an arbitrary sequence s.      *)
+(*  ConcatLemma: for r = u o v,                                            *)
+(*      Return(r)[t] = Return(u)[t] + gamma^(|u| - t) * Return(v)[0]  t < |u| *)
+(*      Return(r)[t] = Return(v)[t - |u|]                            t >= |u| *)
+(*    (every way of cutting every sequence of the universe in two; this is *)
+(*    also the equation a block-wise evaluation with a carried return has  *)
+(*    to satisfy at every block boundary);                                 *)
+(*  EmbedLemma: zero rewards before / after a case leave its returns       *)
+(*    unchanged, give gamma^(pre - t) * R[0] before it and 0 after it;     *)
+(*  SuperposeLemma: two cases u, v separated by zeros: the returns are the *)
+(*    sum of the two embedded single cases (linearity in the rewards).     *)
+(* The new gammas close to 1 (7/8, 31/32, 33/32) have large denominators:  *)
+(* equality is decided on the reduced pairs (no cross products).           *)
+(***************************************************************************)
+CONSTANT PadMax
+RECURSIVE RetS(_, _)
+RetS(s, t) == IF t >= Len(s) THEN RatInt(0) ELSE RatAdd(RatInt(s[t + 1]), RatMul(gamma, RetS(s, t + 1)))
+Zeros(n) == [i \in 1..n |-> 0]
+RatSame(a, b) == Reduce(a) = Reduce(b) /\ a[2] > 0 /\ b[2] > 0
+AsSeq(f) == [i \in 1..Len(f) |-> f[i]]
+\* sum over the least common denominator (keeps the intermediate products inside 32 bits)
+RatAddG(a, b) == LET g == Gcd(a[2], b[2])
+                 IN Reduce(<<a[1] * (b[2] \div g) + b[1] * (a[2] \div g), (a[2] \div g) * b[2]>>)
+
+ConcatLemma == k = NT =>
+  \A a \in 0..NT :
+    LET u == SubSeq(AsSeq(r), 1, a)
+        v == SubSeq(AsSeq(r), a + 1, NT)
+    IN \A t \in 0..(NT - 1) :
+         RatSame(Ret(t), IF t < a THEN RatAddG(RetS(u, t), RatMul(RatPow(gamma, a - t), RetS(v, 0)))
+                         ELSE RetS(v, t - a))
+
+\* value the lemmas prescribe at position t of a long sequence that holds the case c (a reward
+\* sequence) at offset o and zeros elsewhere
+Embedded(c, o, t) == IF t < o THEN RatMul(RatPow(gamma, o - t), RetS(c, 0))
+                     ELSE IF t < o + Len(c) THEN RetS(c, t - o) ELSE RatInt(0)
+
+EmbedLemma == k = NT =>
+  \A pre \in 0..PadMax, post \in 0..PadMax :
+    LET s == Zeros(pre) \o AsSeq(r) \o Zeros(post)
+    IN \A t \in 0..(Len(s) - 1) : RatSame(RetS(s, t), Embedded(AsSeq(r), pre, t))
+
+\* r = u o v with a gap of zeros in between and zeros in front
+SuperposeLemma == k = NT =>
+  \A a \in 1..(NT - 1), pre \in 0..1, gap \in 0..PadMax :
+    LET u == SubSeq(AsSeq(r), 1, a)
+        v == SubSeq(AsSeq(r), a + 1, NT)
+        s == Zeros(pre) \o u \o Zeros(gap) \o v
+    IN \A t \in 0..(Len(s) - 1) :
+         RatSame(RetS(s, t), RatAddG(Embedded(u, pre, t), Embedded(v, pre + a + gap, t)))
 
 Export == k = NT => Emit([r |-> r, gamma |-> gamma, R |-> [t \in 1..NT |-> Ret(t - 1)]])
 =============================================================================
